@@ -181,7 +181,7 @@ PROPS = {
             R("h23", "c16", "TestC16_CloseRace", (80, 4, 300), (8000, 8, 10000)),
             R("h23", "c16", "TestC16_PubsubGone", (60, 2, 300), (4000, 8, 10000)),
             R("h23", "c16", "TestC16_CancelledDirect", (60, 4, 300), (6000, 8, 10000)),
-            R("h23", "c16", "TestC16_ClosePending", (64, 8, 400), (1600, 16, 10000)),
+            R("h23", "c16", "TestC16_ClosePending", (128, 8, 400), (3200, 16, 10000)),
         ],
     },
     "C08": {
